@@ -14,8 +14,15 @@ if oc.res:
         ent = oc.asm.linemap[e["line"] - 1] if e.get("line") and e["line"] <= len(oc.asm.linemap) else None
         if ent and ent.get("kind") == "canary":
             continue
-        if flt and not (ent and ent.get("fn") and flt in ent["fn"]):
+        fnn = (ent or {}).get("fn")
+        if not fnn:
+            for (ln, lab, txt) in e["labels"]:
+                e2 = oc.asm.linemap[ln - 1] if 0 < ln <= len(oc.asm.linemap) else None
+                if e2 and e2.get("fn"):
+                    fnn = e2["fn"] + " (via label)"; break
+        if flt and not (fnn and flt in fnn):
             continue
+        print("#### fn:", fnn)
         print("----", ent)
         print(e["rendered"][:1800])
     print("canaries ok:", oc.canary_ok, "undecided:", oc.undecided)
